@@ -190,17 +190,4 @@ def pathFileName (p : Str) : Option Str :=
 
 def endsWith (s suffix : Str) : Bool := suffix.isSuffixOf s
 
-/-! ### Names the loader must not rename -/
-
-def builtinNames : List Str :=
-  [ "_স্ট্রিং".toList, "_সংখ্যা".toList, "_লিস্ট-পুশ".toList, "_লিস্ট-পপ".toList, "_লিস্ট-লেন".toList,
-    "_রিড-লাইন".toList, "_এরর".toList, "_স্ট্রিং-স্প্লিট".toList, "_স্ট্রিং-জয়েন".toList, "_টাইপ".toList,
-    "_রিড-ফাইল".toList, "_রাইট-ফাইল".toList, "_ডিলিট-ফাইল".toList, "_নতুন-ডাইরেক্টরি".toList,
-    "_রিড-ডাইরেক্টরি".toList, "_ডিলিট-ডাইরেক্টরি".toList, "_ফাইল-নাকি-ডাইরেক্টরি".toList ]
-
-def isBuiltin (name : Str) : Bool := builtinNames.contains name
-
-def platformConst : Str := "_প্ল্যাটফর্ম".toList
-def dirnameConst : Str := "_ডাইরেক্টরি".toList
-
 end Pakhi
